@@ -22,7 +22,9 @@ pub fn run_bytes(data: &[u8], verbose: bool) -> Option<FuzzOutcome> {
     if data.len() < 4 {
         return None;
     }
-    let prop = FUZZ_PROPS[(data[0] as usize) % FUZZ_PROPS.len()];
+    // DV_FUZZ_PROP pins the property (per-property thorough runs); otherwise the first byte selects
+    let pinned = std::env::var("DV_FUZZ_PROP").ok().and_then(|p| FUZZ_PROPS.iter().copied().find(|q| *q == p));
+    let prop = pinned.unwrap_or(FUZZ_PROPS[(data[0] as usize) % FUZZ_PROPS.len()]);
     crate::rng::set_fuzz_bytes(Some(data[1..].to_vec()));
     let mut ctx = Ctx {
         tier: Tier::Quick,
